@@ -41,6 +41,25 @@ def run_states(run, prop, binp, cases, mode, codes_of_interest, what):
             run.violation("%s: construction / update panicked, hung or failed" % what, {"case": c, "result": r})
             continue
         for k, ob, jq, tb in triples(c, r):
+            # nothing may drop out of the exact comparison silently: when the model evaluates to finite values (and the weights
+            # are finite) the problem must show finite residuals and coefficients, and — all derivatives given — a finite Jacobian
+            w = num.weights_of(c)
+            model_ok = tb["phi"] is not None and num.all_finite_mat(tb["phi"]) and (w is None or all(is_finite_hex(h) for h in w))
+            if model_ok:
+                gone = None
+                if ob["resid"] is None or ob["coef"] is None:
+                    gone = "residuals / coefficients are absent"
+                elif not num.all_finite_mat(ob["coef"]) or not all(is_finite_hex(h) for h in ob["resid"]):
+                    gone = "residuals / coefficients are not finite"
+                elif (mode & 4) and all(d is not None and num.all_finite_mat(d) for d in tb["d"]):
+                    if jq is None:
+                        gone = "the Jacobian is absent although every derivative evaluates"
+                    elif not num.all_finite_mat(jq):
+                        gone = "the Jacobian is not finite"
+                if gone:
+                    run.violation("%s, state at step %d: %s although the model evaluates to finite values" % (what, k, gone),
+                                  {"case": c, "step": k, "observe": ob, "jacobian": jq, "tables": tb})
+                    continue
             t = num.state_term(c, ob, tb, jac=jq, with_jac=(mode & 4) != 0, mode=mode)
             if t is not None:
                 terms.append(t)
